@@ -467,8 +467,15 @@ def dynfindSpec (cmd id1 id2 : Bytes) (impl : List String) : String :=
 /-- `T<type>,<rc>,<ri>` / `B<type>,<rc>,<ri>` of the dynconf op: "-" and 255 mean "not set" -/
 def parseTB (s : String) : Option (Option Nat × Option Nat × Option Nat) :=
   let f (t : String) : Option (Option Nat) := if t = "-" then some none else t.toNat?.map fun n => if n = 255 then none else some n
-  match ((s.drop 1).toString.splitOn ",").mapM f with
+  match (((s.drop 1).toString.splitOn ",").take 3).mapM f with
   | some [a, b, c] => some (a, b, c)
+  | _ => none
+
+/-- the certificate-check flags of a `T…`/`B…` token (fields 4 and 5: CertificateCNCheck, CertificateNameCheck; "-" = not set) -/
+def parseTBcert (s : String) : Option (Option Nat × Option Nat) :=
+  let f (t : String) : Option (Option Nat) := if t = "-" then some none else t.toNat?.map some
+  match (((s.drop 1).toString.splitOn ",").drop 3).mapM f with
+  | some [a, b] => some (a, b)
   | _ => none
 
 /-- type, RetryCount and RetryInterval a discovered server ends up with: what its block says, else what the template block says,
@@ -493,6 +500,14 @@ def model (op : String) (args : List String) : String :=
     match ofHex c, ofHex i with
     | some c, some i => showLookup (DynRealm.dynLookup c i)
     | _, _ => "bad-op"
+  | "dynroute", [i, a1, a2, _] =>
+    -- a realm whose authentication and accounting servers are both discovered: each request kind is routed to ITS list
+    match ofHex i with
+    | some id =>
+      let which (a : String) : String := if a = "1" then "acct" else "auth"
+      if (DynRealm.dynRealmOf (cstr id)).isNone then "p1 top from:none | p2 top from:none"
+      else s!"p1 sub from:{which a1} | p2 sub from:{which a2}"
+    | none => "bad-op"
   | "tcpstream", args => streamModel args
   | "tlsstream", args => tlsStreamModel args
   | "radlen", [h] => (match ofHex h with | some b => toString (Stream.checkedRadLength b) | none => "bad-op")
@@ -534,7 +549,13 @@ def model (op : String) (args : List String) : String :=
     let base := model "dynconf" [tsec, id, blk, dsec]
     if base = "none" || base = "bad-op" then base else
     match dynRetry T B with
-    | some (t, rc, ri) => base ++ s!" type={t} rc={rc} ri={ri}"
+    | some (t, rc, ri) =>
+      -- the name-check flags: CertificateNameCheck is what the printed block says, else the template's; CertificateCNCheck is what the
+      -- printed block says (off when it says nothing)
+      let cert := match parseTBcert T, parseTBcert B with
+        | some (_, some tnc), some (bcn, bnc) => s!" cn={bcn.getD 0} nc={bnc.getD tnc}"
+        | _, _ => ""
+      base ++ s!" type={t} rc={rc} ri={ri}" ++ cert
     | none => "bad-op"
   | "addreq", [_, a, pa, b, pb] =>
     match ofHex a, pa.toNat?, ofHex b, pb.toNat? with
@@ -644,13 +665,35 @@ def spec (op : String) (args impl : List String) : String :=
     if v ≠ "ok" then v else
     -- C12: a discovered server is retried as ITS configuration says: the printed block's RetryCount/RetryInterval where it sets them,
     -- else the template block's, else the transport's defaults
-    (match dynRetry T B, impl.drop 3 with
+    (match dynRetry T B, (impl.drop 3).take 3 with
      | some (t, rc, ri), [a, b, c] =>
        if a != s!"type={t}" then "bad C12:discovered-server-has-another-transport-than-configured"
        else if b != s!"rc={rc}" then "bad C12:discovered-server-RetryCount-not-as-configured:" ++ b ++ s!"-expected-{rc}"
        else if c != s!"ri={ri}" then "bad C12:discovered-server-RetryInterval-not-as-configured:" ++ c ++ s!"-expected-{ri}"
-       else "ok"
+       else
+         -- C15: the subject CN is consulted only when CertificateCNCheck is on - for a discovered server: on in its printed block or
+         -- in the template block; and the name check is not switched off unless one of the two says so
+         (match parseTBcert T, parseTBcert B, impl.drop 6 with
+          | some (tcn, tnc), some (bcn, bnc), [cn, nc] =>
+            if cn = "cn=1" && bcn != some 1 && tcn != some 1 then "bad C15:discovered-server-consults-the-subject-CN-though-CertificateCNCheck-is-off"
+            else if nc = "nc=0" && bnc != some 0 && tnc != some 0 then "bad C15:discovered-server-name-check-switched-off-though-nothing-says-so"
+            else "ok"
+          | _, _, _ => "ok")
      | _, _ => "bad output-shape")
+  | "dynroute", [i, a1, a2, _], impl =>
+    if impl.any (·.startsWith "crash") then "bad sanitizer-or-crash" else
+    match ofHex i with
+    | some id =>
+      let froms := impl.filter (·.startsWith "from:")
+      let want (a : String) : String := if a = "1" then "from:acct" else "from:auth"
+      if (DynRealm.dynRealmOf (cstr id)).isNone then
+        (if froms.all (· = "from:none") then "ok" else "bad C20:server-discovered-for-a-realm-that-must-not-start-a-lookup")
+      -- C08: Accounting-Requests use the realm's accounting servers, Access-Requests its authentication servers - also in a realm
+      -- whose servers are discovered, and also for the very request that starts the discovery
+      else if froms != [want a1, want a2] then
+        "bad C08:request-routed-to-a-server-of-the-realms-other-list:" ++ "/".intercalate froms ++ "-expected-" ++ want a1 ++ "/" ++ want a2
+      else "ok"
+    | none => "bad-op"
   | "connstate", [_, st, _], [r, _] =>
     match st.toNat? with
     | some st =>
